@@ -249,6 +249,8 @@ class LinState:
             k = norm(e)
             if k in env:
                 return env[k]
+            if k in ("np.nan", "numpy.nan", "np.NaN"):
+                return Z  # the repo's marker for "derivative undefined here": accepted wherever a zero is
             if e.attr in ("shape", "ndim", "dtype", "size", "base", "flags", "strides"):
                 return C
             b = self.ev(e.value, env)
